@@ -176,6 +176,7 @@ def run(ctx):
         K = Poly.atom(katom)
         nw = 0
         LSm = loops_of(P, mf, pcm)
+        pending_walks = []
         for L in LSm:
             inner = {b for L2 in LSm if L2.header is not L.header and L2.body < L.body for b in L2.body}
             for ld in [i for b in L.body if b not in inner for i in b.insts if i.op == 'load' and i.ty == 'i32']:
@@ -194,14 +195,35 @@ def run(ctx):
                     r.undecided(inst, loc=ld.loc, msg=f'start {ab[0]}, trip {T}')
                     continue
                 from ..loops import in_iteration_space as _its4
-                col0 = strip_multiples(_its4(LSm, ld.bb, a4), katom)
+                full4 = _its4(LSm, ld.bb, a4)
+                col0 = strip_multiples(full4, katom)
                 # enclosing-loop variables multiply k in the row base; what is left is the first column
                 if col0.is_zero() and T == K:
                     r.ok(inst + ': columns 0 .. k-1', func=mf.name, loc=ld.loc)
+                elif not (col0.is_zero() and T == K) and ld.line is not None and pending_walks is not None:
+                    # a row walked in two pieces around the diagonal entry: decided once both pieces are known
+                    rowidx = Poly({tuple(x for x in k_ if x != katom) if k_.count(katom) == 1 else k_: v for k_, v in (full4 - col0).items()})
+                    pending_walks.append((L, ld, col0, _its4(LSm, ld.bb, T), rowidx, inst))
                 else:
                     r.fail(inst, func=mf.name, sig=f'row walk over columns [{col0}, {col0} + {T})', loc=ld.loc,
                            msg=f'the loop at line {ld.line} visits columns {col0} .. {col0 + T}-1 of a matrix row, not 0 .. k-1: the skipped entries keep their '
                                'un-normalised values in the generator')
+        # pieces: [0, d) and [d + 1, k) of the same row with d the row's own index (the diagonal entry is left alone), or [0, d) [d, k)
+        used = set()
+        for x in range(len(pending_walks)):
+            for y in range(len(pending_walks)):
+                if x == y or x in used or y in used:
+                    continue
+                (L1, ld1, c1, T1, r1, i1), (L2, ld2, c2, T2, r2, i2) = pending_walks[x], pending_walks[y]
+                if c1.is_zero() and r1 == r2 and c2 + T2 == K and (c1 + T1 == c2 or (c1 + T1 + Poly.const(1) == c2 and c1 + T1 == r1)):
+                    used |= {x, y}
+                    r.ok(i1 + f' and line {ld2.line}: columns 0 .. k-1 in two pieces around the diagonal entry', func=mf.name, loc=ld1.loc)
+                    r.ok(i2 + ': second piece', func=mf.name, loc=ld2.loc, trivial=True)
+        for x, (L1, ld1, c1, T1, r1, i1) in enumerate(pending_walks):
+            if x not in used:
+                r.fail(i1, func=mf.name, sig=f'row walk over columns [{c1}, {c1} + {T1})', loc=ld1.loc,
+                       msg=f'the loop at line {ld1.line} visits columns {c1} .. {c1 + T1}-1 of a matrix row, not 0 .. k-1: the skipped entries keep their '
+                           'un-normalised values in the generator')
         if nw < 2:
             r.undecided(f'{fname[1:]}: row walks', msg=f'only {nw} row walks found')
     # helper walks, stated as the set of cells written: {start + stride * t : 0 <= t < count} (bytes from the matrix argument),
